@@ -26,7 +26,7 @@ def getOp (code : List Nat) (pc : Nat) : Nat := code.getD pc 0
 
 /-- the execute functions that enter `evm.Call/CallCode/DelegateCall/StaticCall/Create/Create2` -/
 def isCallFamily (r : Row) : Bool := r.kind == 1 || r.kind == 2
-def isCreateFamily (r : Row) : Bool := r.kind == 3
+def isCreateFamily (r : Row) : Bool := r.kind == 3 || r.kind == 7
 def entersFrame (r : Row) : Bool := isCallFamily r || isCreateFamily r
 def isIssue (r : Row) : Bool := r.kind == 4
 def isStaticCallOp (r : Row) : Bool := r.kind == 2
@@ -42,20 +42,29 @@ deriving DecidableEq, Repr, Inhabited
     `GetUTXOChangeRate` before its static call) -/
 abbrev Token := Option Bool
 
+/-- the EVM-wide mutable state besides the world: the `Issued` channel and the fee ledger.  The ledger is kept at the
+    level of sums (`fees = Σ evm.fees`, `refunds = Σ evm.refundFees`): `RefundFee() = refunds`,
+    `RefundAllFee() = fees + refunds`. -/
+structure Glob where
+  iss : Token := none
+  fees : Nat := 0
+  refunds : Nat := 0
+
 /-- what a call wrapper (`evm.Call` …) hands back to `opCall` … -/
 structure CallRes (W : Type) where
   status : Status
   gas : Nat          -- `contract.Gas` returned as leftOverGas
   world : W
-  iss : Token        -- what is left in the `Issued` channel
+  glob : Glob
+  /-- gas of the steps the interpreter executed in this call tree (what was really burnt, forwarded gas excluded) -/
+  work : Nat
+  /-- an ISSUE step was executed somewhere in this call tree -/
+  issued : Bool
 
-/-- the request an executing call-family / create-family op makes -/
+/-- the request an executing call-family / create-family op makes; `fwd` is set by the model (`stepCall`, `stepPlain`) -/
 structure CallReq (W : Type) where
-  /-- gas handed to the callee (`callGasTemp` + stipend, or the gas `opCreate` takes) -/
+  /-- gas handed to the callee (`callGasTemp` + stipend, or the gas `opCreate`/`opCreate2` take) -/
   fwd : Nat
-  /-- gas `execute` itself removes from the caller with `contract.UseGas` (CREATE/CREATE2; 0 for the call family,
-      whose forwarded gas is part of the step's cost) -/
-  take : Nat
   /-- the world at the call, after what happens BEFORE the snapshot (CREATE's caller-nonce bump) -/
   world : W
   /-- refused before the snapshot: `some keep` (ErrInsufficientBalance keeps the gas, ErrContractAddressCollision
@@ -78,12 +87,26 @@ inductive Exec (W L : Type)
   | next (l : L) (w : W) (jump : Option Nat)        -- done; `jump = some t`: a taken JUMP/JUMPI
   | call (req : CallReq W) (k : CallRes W → L)     -- enters a frame; `k` rebuilds stack/memory from the result
 
+/-- the state-dependent summands of `gasCall/gasCallCode/gasDelegateCall/gasStaticCall` and the requested gas -/
+structure CallArgs where
+  /-- `gasFee(evm, toAddr, value)` (CALL with value only) -/
+  fee : Nat
+  /-- CallNewAccountGas + memory expansion -/
+  extra : Nat
+  /-- `stack.Back(0)`, any 256-bit word -/
+  requested : Nat
+
 /-- the opcode semantics the skeleton is generic in -/
 structure Sem (W L : Type) where
   stackLen : L → Nat
-  /-- `operation.gasCost` (memory size overflow included): `none` = error, reported as ErrOutOfGas -/
+  /-- `operation.gasCost` of every entry outside the call family, the transfer fee excluded (memory size overflow
+      included): `none` = error, reported as ErrOutOfGas -/
   gasCost : Row → L → W → Nat → Option Nat
-  /-- the value test of `enforceRestrictions` (`op == CALL && stack.Back(2).BitLen() > 0`) -/
+  /-- the transfer fee `gasFee` adds to the price of SELFDESTRUCT / TRANSFERTOKEN (and records in `evm.fees`) -/
+  fee : Row → L → W → Nat
+  /-- call family: `none` = gas error (memory overflow) -/
+  callArgs : Row → L → W → Option CallArgs
+  /-- the value operand is non-zero (`stack.Back(2).Sign() != 0`): read by `enforceRestrictions`, `gasCall`, `opCall` -/
   callHasValue : Row → L → Bool
   exec : Row → Nat → Nat → L → W → Exec W L
   /-- fresh stack and memory -/
@@ -98,68 +121,150 @@ structure Frame (W L : Type) where
   l : L
   w : W
   static : Bool      -- `in.readOnly`
-  iss : Token
+  glob : Glob
+  work : Nat
+  issued : Bool
 
 structure FrameRes (W : Type) where
   status : Status
   gas : Nat
   world : W
-  iss : Token
+  glob : Glob
+  work : Nat
+  issued : Bool
 
 inductive StepRes (W L : Type)
   | cont (f : Frame W L)
   | halt (r : FrameRes W)
 
-/-- `evm.Call…` one level deeper: request, the caller's `readOnly`, the channel -/
-abbrev SubCall (W : Type) := CallReq W → Bool → Token → CallRes W
+/-- `evm.Call…` one level deeper: request, the caller's `readOnly`, the EVM-wide state -/
+abbrev SubCall (W : Type) := CallReq W → Bool → Glob → CallRes W
 
 variable {W L : Type}
 
 /-- `select { case evm.Issued <- true: default: }` -/
 def sendIssued (t : Token) : Token := match t with | none => some true | some b => some b
 
+/-- `callGas` of vm/evm/gas.go on uint64 operands (`gasTable.CreateBySuicide > 0`, extracted): the subtraction wraps,
+    the requested gas is capped by all-but-one-64th of what is left after the base price -/
+def callGasU64 (avail base requested : Nat) : Nat :=
+  let a := (avail + 2 ^ 64 - base % 2 ^ 64) % 2 ^ 64
+  let g := a - a / 64
+  if 2 ^ 64 ≤ requested ∨ g < requested then g else requested
+
+/-- the frame ends with an error before (or instead of) executing -/
+def failHere (f : Frame W L) (glob : Glob) : StepRes W L :=
+  .halt { status := .failed, gas := f.gas, world := f.w, glob := glob, work := f.work, issued := f.issued }
+
+/-- the `switch` at the end of the loop body: `reverts` / `halts` / continue -/
+def finishStep (r : Row) (f : Frame W L) (g : Nat) (l' : L) (w' : W) (pc' : Nat) (glob : Glob) (work : Nat)
+    (issued : Bool) : StepRes W L :=
+  if r.reverts then .halt { status := .reverted, gas := g, world := w', glob := glob, work := work, issued := issued }
+  else if r.halts then .halt { status := .ok, gas := g, world := w', glob := glob, work := work, issued := issued }
+  else .cont { f with pc := pc', gas := g, l := l', w := w', glob := glob, work := work, issued := issued }
+
+/-- the fee ledger when `UseGas(cost)` fails on a fee-carrying step (`feeSaved`): the entry just pushed is popped and
+    `contract.Gas - (cost - fee)` is pushed instead when positive -/
+def oogLedger (glob : Glob) (gas cost fee : Nat) : Glob :=
+  if 0 < fee ∧ cost - fee < gas then { glob with fees := glob.fees + (gas - (cost - fee)) } else glob
+
+/-- only state-modifying entries (SELFDESTRUCT, TRANSFERTOKEN) carry a transfer fee; constant prices carry none -/
+def plainFee (sem : Sem W L) (f : Frame W L) (r : Row) : Nat :=
+  match r.gasConst with | some _ => 0 | none => if r.writes then sem.fee r f.l f.w else 0
+
+/-- constant-priced entries ignore the state; the others add the transfer fee to their gas function -/
+def plainCost (r : Row) (c0 fee : Nat) : Nat :=
+  match r.gasConst with | some k => k | none => c0 + fee
+
+/-- CREATE: `gas = contract.Gas`; CREATE2: `gas -= gas / 64` -/
+def createTake (r : Row) (g1 : Nat) : Nat := if r.kind == 3 then g1 else g1 - g1 / 64
+
+/-- `gasFee` is charged by gasCall only (CALL), only for a positive value, and `CalNewAmountGas` never returns less
+    than MinGasLimit -/
+def callFee (r : Row) (hv : Bool) (a : CallArgs) : Nat := if isPlainCallOp r && hv then max a.fee minFeeGas else 0
+
+/-- `gt.Calls` (+ CallValueTransferGas) + fee + new-account/memory gas -/
+def callBase (hv : Bool) (fee extra : Nat) : Nat := gtCalls + (if hv then callValueTransferGas else 0) + fee + extra
+
+/-- `if value.Sign() != 0 { gas += CallStipend }` -/
+def stipendOf (hv : Bool) : Nat := if hv then callStipend else 0
+
+/-- opCall on error: `refundFees = append(refundFees, fees[startFeesIndex:]...); fees = fees[:startFeesIndex]`, the slice
+    starting at this step's own entry (sum level: everything above `before`, the sum before this step) -/
+def moveToRefunds (r : Row) (failed : Bool) (before : Nat) (g : Glob) : Glob :=
+  if isPlainCallOp r && failed then { g with refunds := g.refunds + (g.fees - before), fees := min g.fees before } else g
+
+/-- an entry outside the call family: price (constant, or gas function + transfer fee), `UseGas`, `execute` -/
+def stepPlain (sem : Sem W L) (sub : SubCall W) (f : Frame W L) (r : Row) : StepRes W L :=
+  match sem.gasCost r f.l f.w f.gas with
+  | none => failHere f f.glob                                           -- gas error ⇒ ErrOutOfGas (a saved fee is popped)
+  | some c0 =>
+    let fee := plainFee sem f r
+    let c := plainCost r c0 fee
+    if f.gas < c then failHere f (oogLedger f.glob f.gas c fee)         -- UseGas fails ⇒ ErrOutOfGas
+    else
+      let g1 := f.gas - c
+      let glob1 : Glob := { f.glob with fees := f.glob.fees + fee }
+      let work1 := f.work + c
+      match sem.exec r f.pc g1 f.l f.w with
+      | .err => .halt { status := .failed, gas := g1, world := f.w, glob := glob1, work := work1, issued := f.issued }
+      | .revertErr => .halt { status := .reverted, gas := g1, world := f.w, glob := glob1, work := work1, issued := f.issued }
+      | .next l' w' jmp =>
+        let glob2 : Glob := if isIssue r then { glob1 with iss := sendIssued glob1.iss } else glob1
+        finishStep r f g1 l' w' (if r.jumps then jmp.getD (f.pc + 1) else f.pc + 1 + r.pcAdv) glob2 work1
+          (f.issued || isIssue r)
+      | .call req k =>
+        if !isCreateFamily r then failHere f f.glob     -- only CREATE/CREATE2 reach evm.Create here; unreachable otherwise
+        else
+          -- opCreate: `gas = contract.Gas`; opCreate2: `gas -= gas / 64`; `contract.UseGas(gas)`
+          let take := createTake r g1
+          let res := sub { req with fwd := take } f.static glob1
+          -- `contract.Gas += returnGas`
+          finishStep r f (g1 - take + res.gas) (k res) res.world (f.pc + 1 + r.pcAdv) res.glob (work1 + res.work)
+            (f.issued || res.issued)
+
+/-- CALL / CALLCODE / DELEGATECALL / STATICCALL: `gasCall…` (base price, `callGas`), `UseGas`, `opCall…` -/
+def stepCall (sem : Sem W L) (sub : SubCall W) (f : Frame W L) (r : Row) : StepRes W L :=
+  match sem.callArgs r f.l f.w with
+  | none => failHere f f.glob
+  | some a =>
+    let hv := sem.callHasValue r f.l
+    let fee := callFee r hv a
+    let base := callBase hv fee a.extra
+    let temp := callGasU64 f.gas base a.requested                       -- evm.callGasTemp
+    let c := base + temp
+    if 2 ^ 64 ≤ c then failHere f f.glob                                -- SafeAdd overflow ⇒ error ⇒ the saved fee is popped
+    else if f.gas < c then failHere f (oogLedger f.glob f.gas c fee)    -- UseGas fails
+    else
+      let g1 := f.gas - c
+      let glob1 : Glob := { f.glob with fees := f.glob.fees + fee }
+      let stipend := stipendOf hv
+      -- the stipend is paid for by CallValueTransferGas and accounted to the callee
+      let work1 := f.work + (base - stipend)
+      match sem.exec r f.pc g1 f.l f.w with
+      | .err => .halt { status := .failed, gas := g1, world := f.w, glob := glob1, work := work1 + stipend, issued := f.issued }
+      | .revertErr => .halt { status := .reverted, gas := g1, world := f.w, glob := glob1, work := work1 + stipend, issued := f.issued }
+      | .next l' w' _ =>
+        finishStep r f g1 l' w' (f.pc + 1 + r.pcAdv) glob1 (work1 + stipend) f.issued
+      | .call req k =>
+        -- `gas := evm.callGasTemp; if value.Sign() != 0 { gas += CallStipend }`
+        let res := sub { req with fwd := temp + stipend } f.static glob1
+        let glob2 := moveToRefunds r (res.status != .ok) f.glob.fees res.glob
+        finishStep r f (g1 + res.gas) (k res) res.world (f.pc + 1 + r.pcAdv) glob2 (work1 + res.work) (f.issued || res.issued)
+
 /-- one iteration of the loop in `Interpreter.Run`; `sub` is `evm.Call…` one level deeper -/
 def step (sem : Sem W L) (sub : SubCall W) (f : Frame W L) : StepRes W L :=
-  let fail : StepRes W L := .halt { status := .failed, gas := f.gas, world := f.w, iss := f.iss }
   match lookup (getOp f.code f.pc) with
-  | none => fail                                                        -- invalid opcode
+  | none => failHere f f.glob                                          -- invalid opcode
   | some r =>
-    if !stackOk r (sem.stackLen f.l) then fail                          -- validateStack
-    else if f.static && (r.writes || (isPlainCallOp r && sem.callHasValue r f.l)) then fail   -- errWriteProtection
-    else
-      match sem.gasCost r f.l f.w f.gas with
-      | none => fail                                                    -- gas error ⇒ ErrOutOfGas
-      | some c =>
-        let c := match r.gasConst with | some k => k | none => c        -- constant-priced entries ignore the state
-        if f.gas < c then fail                                          -- UseGas fails ⇒ ErrOutOfGas
-        else
-          let g1 := f.gas - c
-          match sem.exec r f.pc g1 f.l f.w with
-          | .err => .halt { status := .failed, gas := g1, world := f.w, iss := f.iss }
-          | .revertErr => .halt { status := .reverted, gas := g1, world := f.w, iss := f.iss }
-          | .next l' w' jmp =>
-            let iss' := if isIssue r then sendIssued f.iss else f.iss
-            if r.reverts then .halt { status := .reverted, gas := g1, world := w', iss := iss' }
-            else if r.halts then .halt { status := .ok, gas := g1, world := w', iss := iss' }
-            else
-              let pc' := if r.jumps then jmp.getD (f.pc + 1) else f.pc + 1 + r.pcAdv
-              .cont { f with pc := pc', gas := g1, l := l', w := w', iss := iss' }
-          | .call req k =>
-            if !entersFrame r then fail     -- only the six call/create ops reach evm.Call…; unreachable for a faithful Sem
-            else
-              -- `contract.UseGas(take)`; the callee never gets more than was paid for it (law of the six ops, checked
-              -- on every traced call by Part B: `child-gas-exceeds-what-was-paid`)
-              let take := min req.take g1
-              let fwd := min req.fwd (c + take)
-              let res := sub { req with fwd := fwd, take := take } f.static f.iss
-              let g2 := g1 - take + min res.gas fwd          -- `contract.Gas += returnGas` (the clamp is a no-op: `Props.C20.gas_bounded`)
-              if r.reverts then .halt { status := .reverted, gas := g2, world := res.world, iss := res.iss }
-              else if r.halts then .halt { status := .ok, gas := g2, world := res.world, iss := res.iss }
-              else .cont { f with pc := f.pc + 1 + r.pcAdv, gas := g2, l := k res, w := res.world, iss := res.iss }
+    if !stackOk r (sem.stackLen f.l) then failHere f f.glob            -- validateStack
+    else if f.static && (r.writes || (isPlainCallOp r && sem.callHasValue r f.l)) then failHere f f.glob   -- errWriteProtection
+    else if isCallFamily r then stepCall sem sub f r
+    else stepPlain sem sub f r
 
 /-- the loop, with explicit fuel -/
 def runFrame (sem : Sem W L) (sub : SubCall W) : Nat → Frame W L → FrameRes W
-  | 0, f => { status := .outOfFuel, gas := f.gas, world := f.w, iss := f.iss }
+  | 0, f => { status := .outOfFuel, gas := f.gas, world := f.w, glob := f.glob, work := f.work, issued := f.issued }
   | n + 1, f =>
     match step sem sub f with
     | .halt r => r
@@ -194,40 +299,47 @@ def afterDeposit (req : CallReq W) (r : FrameRes W) : FrameRes W :=
 
 /-- `select { case <-evm.Issued: if err == nil { GetUTXOChangeRate(contract.Address()) } default: }`.
     GetUTXOChangeRate sends `false` on the channel and makes an UN-METERED `StaticCall` with `staticCallSimulateGas`
-    at the same depth (`sim`).  That static call's own select drains whatever token is left when it returns; a `true`
-    token cannot be there (ISSUE is a `writes` entry and the frame is read-only: `Props.C20.issue_writes`). -/
-def afterSelect (sem : Sem W L) (J : Journal W) (static : Bool) (sim : W → FrameRes W) (r : FrameRes W) : FrameRes W :=
-  if triggersRate static r.iss && r.status == .ok then
+    at the same depth (`sim`, given the EVM-wide state).  That static call's own select drains whatever token is left
+    when it returns; a `true` token cannot be there (ISSUE is a `writes` entry and the frame is read-only:
+    `Props.C20.issue_writes`). -/
+def afterSelect (sem : Sem W L) (J : Journal W) (static : Bool) (sim : W → Glob → FrameRes W) (r : FrameRes W) : FrameRes W :=
+  if triggersRate static r.glob.iss && r.status == .ok then
     let snap2 := J.snap r.world
-    let s := sim r.world
+    let s := sim r.world { r.glob with iss := some false }
     let w2 := if s.status == .ok then s.world else J.revertTo s.world snap2
-    if sem.rateOk s.status w2 then { r with world := w2, iss := none }
-    else { r with status := .reverted, world := w2, iss := none }
-  else { r with iss := none }      -- the select drains the channel (or finds it empty)
+    let glob2 : Glob := { s.glob with iss := none }
+    if sem.rateOk s.status w2 then { r with world := w2, glob := glob2, work := r.work + s.work, issued := r.issued || s.issued }
+    else { r with status := .reverted, world := w2, glob := glob2, work := r.work + s.work, issued := r.issued || s.issued }
+  else { r with glob := { r.glob with iss := none } }      -- the select drains the channel (or finds it empty)
 
 /-- `if err != nil { RevertToSnapshot(snapshot); if err != ExecutionReverted { contract.UseGas(contract.Gas) } }` -/
 def settle (J : Journal W) (snapshot : J.Snap) (r : FrameRes W) : CallRes W :=
   match r.status with
-  | .ok => { status := .ok, gas := r.gas, world := r.world, iss := r.iss }
-  | .reverted => { status := .reverted, gas := r.gas, world := J.revertTo r.world snapshot, iss := r.iss }
-  | st => { status := st, gas := 0, world := J.revertTo r.world snapshot, iss := r.iss }
+  | .ok => { status := .ok, gas := r.gas, world := r.world, glob := r.glob, work := r.work, issued := r.issued }
+  | .reverted => { status := .reverted, gas := r.gas, world := J.revertTo r.world snapshot, glob := r.glob, work := r.work, issued := r.issued }
+  | st => { status := st, gas := 0, world := J.revertTo r.world snapshot, glob := r.glob, work := r.work, issued := r.issued }
+
+/-- a fresh frame (empty stack and memory, pc 0) run to its end -/
+def runFresh (sem : Sem W L) (sub : SubCall W) (code : List Nat) (gas : Nat) (w : W) (static : Bool) (glob : Glob) : FrameRes W :=
+  runFrame sem sub (fuelFor code gas)
+    { code := code, pc := 0, gas := gas, l := sem.l0, w := w, static := static, glob := glob, work := 0, issued := false }
+
+/-- the body of `evm.Call / CallCode / DelegateCall / StaticCall / create` once the depth check has passed; `sub` is the
+    same family one level deeper -/
+def callBody (sem : Sem W L) (J : Journal W) (sub : SubCall W) (req : CallReq W) (ro : Bool) (glob : Glob) : CallRes W :=
+  match req.refuse with
+  | some keep => { status := .failed, gas := if keep then req.fwd else 0, world := req.world, glob := glob, work := 0, issued := false }
+  | none =>
+    -- snapshot, then CreateAccount / Transfer, then run; deposit; the select on `Issued`; revert / burn
+    settle J (J.snap req.world)
+      (afterSelect sem J req.static (fun w g => runFresh sem sub (req.simCode w) simulateGas w true g)
+        (afterDeposit req (runFresh sem sub req.code req.fwd (req.enter req.world) (ro || req.static) glob)))
 
 /-- `evm.Call / CallCode / DelegateCall / StaticCall / create` with a depth budget
-    (`evm.depth > CallCreateDepth ⇒ ErrDepth`) -/
+    (`evm.depth > CallCreateDepth ⇒ ErrDepth`, the gas is handed back) -/
 def callAt (sem : Sem W L) (J : Journal W) : Nat → SubCall W
-  | 0, req, _, iss => { status := .failed, gas := req.fwd, world := req.world, iss := iss }   -- ErrDepth, gas handed back
-  | n + 1, req, ro, iss =>
-    match req.refuse with
-    | some keep => { status := .failed, gas := if keep then req.fwd else 0, world := req.world, iss := iss }
-    | none =>
-      let run := fun (code : List Nat) (gas : Nat) (w : W) (static : Bool) (iss : Token) =>
-        runFrame sem (callAt sem J n) (fuelFor code gas)
-          { code := code, pc := 0, gas := gas, l := sem.l0, w := w, static := static, iss := iss }
-      -- snapshot, then CreateAccount / Transfer, then run
-      let r := run req.code req.fwd (req.enter req.world) (ro || req.static) iss
-      let r := afterDeposit req r
-      let r := afterSelect sem J req.static (fun w => run (req.simCode w) simulateGas w true (some false)) r
-      settle J (J.snap req.world) r
+  | 0 => fun req _ glob => { status := .failed, gas := req.fwd, world := req.world, glob := glob, work := 0, issued := false }
+  | n + 1 => callBody sem J (callAt sem J n)
 
 /-! ### the fee ledger of `Interpreter.Run` (`evm.fees`, `feeSaved`) on a step that cannot pay -/
 
